@@ -516,6 +516,11 @@ func runC09(r *Run) {
 
 	r.rule("R5", "pooled parameter maps: cleared before reuse, not used after Put (E4a/E1)", func() { pooledParamMapRule(r) })
 
+	r.rule("R12", "the request and response views negotiate like the context: Req().Accepts / AcceptsCharsets / AcceptsEncodings / AcceptsLanguages and Res().Format / AutoFormat each answer by the context method of the same name on the same offers (sibling agreement between the two spellings of one API)", func() {
+		viewDelegatesByNameRule(r, "DefaultReq", []string{"Accepts", "AcceptsCharsets", "AcceptsEncodings", "AcceptsLanguages"}, "c.Req()."+"AcceptsLanguages(\"en\",\"de\",\"fr\") would be negotiated against another header (Accept-Encoding) than c.AcceptsLanguages — a missing Accept-Language no longer selects the first offer, a language refused with q=0 can be selected")
+		viewDelegatesByNameRule(r, "DefaultRes", []string{"Format", "AutoFormat"}, "the response view would format by another method than the context")
+	})
+
 	r.rule("R11", "a parameter map goes back to the pool once: the maps of the parsed ranges are handed back by one loop over the ranges (each range when the selection is done with it) — a second sweep over the list (`release all` at the match) hands back the maps of ranges that were already rejected a second time, two later ranges then share one map and the second overwrites the first one's parameters (E1 pairing)", func() {
 		f := r.Fn("", "getOffer")
 		type loopKey struct {
